@@ -363,7 +363,7 @@ theorem VerifyJWTSignatureAndClaims_refines (now : Int) (t : Go.Inst) (j : Go.JW
     (Code.TraefikOidc_VerifyJWTSignatureAndClaims now t j tok).isNone =
       accept codeFacts (String.ofList t.issuerURL) (String.ofList t.clientID) (jwks.Keys.map (absKey fam)) now
         { absTok j with sigValid := sig } := by
-  obtain ⟨ex, ad, ar, gp, ecf, pj, iu, ci, gj, tp, vs⟩ := t
+  obtain ⟨ex, ad, ar, gp, ecf, ecl, pj, iu, ci, gj, tp, vs⟩ := t
   simp only at hj hpem hsig ⊢
   rw [accept_eq]
   have hcl : claimsStage codeFacts (String.ofList iu) (String.ofList ci) now { absTok j with sigValid := sig } =
